@@ -255,6 +255,17 @@ Ltac mstep H :=
 Ltac mon H := repeat (mstep H).
 
 
+Lemma retighten_valid st p st' : SV st -> retighten st p = Ok st' -> SV st'.
+Proof.
+  unfold retighten. intros V H. destruct p as [item|]; [|inversion H; subst; exact V].
+  destruct (parent_of item (ps_root st)) as [lid|]; [|inversion H; subst; exact V].
+  destruct (get st lid) as [l| |] eqn:G; cbn [bind] in H; try discriminate H.
+  destruct (bi_open (binf l)); [inversion H; subst; exact V|].
+  destruct (bval l) eqn:Bv; try (inversion H; subst; exact V).
+  eapply modify_info_valid; [exact V | exact H |].
+  intros n Fn. rewrite (get_find _ _ _ G) in Fn. inversion Fn; subst. unfold bval in Bv. cbn. rewrite Bv. reflexivity.
+Qed.
+
 Lemma finalize_valid o st id p st' : SV st -> finalize o st id = Ok (p, st') -> SV st'.
 Proof.
   intros V F. unfold finalize in F.
@@ -263,6 +274,7 @@ Proof.
   mstep F. clear E1.
   destruct (bi_val (binf a)) eqn:Ev; mon F;
   repeat first [ apply SV_st_refmap
+               | (eapply retighten_valid; [|eassumption])
                | (eapply bdetach_valid; [|eassumption])
                | (eapply modify_info_valid; [exact V | eassumption |
                     intros n Fn; rewrite E in Fn; inversion Fn; subst; cbn; rewrite ?Ev; reflexivity]) ].
